@@ -180,6 +180,43 @@ def load_registry():
     return json.load(open(os.path.join(HERE, 'registry.json')))
 
 
+def audit_list(mods, thms):
+    """`#print axioms` for the given theorems; returns (n, n_ok, bad, raw output)"""
+    mods = sorted(set(mods))
+    src = '\n'.join(f'import {m}' for m in mods) + '\n' + '\n'.join(f'#print axioms {t}' for t in thms) + '\n'
+    os.makedirs(WORK, exist_ok=True)
+    path = os.path.join(WORK, f'Audit_{os.getpid()}.lean')
+    open(path, 'w').write(src)
+    try:
+        p = subprocess.run(['lake', 'env', 'lean', path], cwd=LEAN, capture_output=True, text=True)
+    finally:
+        os.remove(path)
+    out = clean_out(p.stdout + p.stderr)
+    seen = {}
+    for m in re.finditer(r"'([^']+)' (does not depend on any axioms|depends on axioms: \[([^\]]*)\])", out):
+        seen[m.group(1)] = set(a.strip() for a in (m.group(3) or '').split(',') if a.strip())
+    ok, bad = [], []
+    for t in thms:
+        axs = seen.get(t)
+        if axs is None:
+            bad.append((t, 'not found / does not elaborate'))
+        elif not axs <= ALLOWED_AXIOMS:
+            bad.append((t, 'axioms ' + ','.join(sorted(axs - ALLOWED_AXIOMS))))
+        else:
+            ok.append(t)
+    return len(thms), len(ok), bad, out
+
+
+def leanchecker(mods):
+    """independent re-check of the compiled modules (thorough tier)"""
+    try:
+        p = subprocess.run(['lake', 'env', 'leanchecker'] + sorted(set(mods)), cwd=LEAN, capture_output=True, text=True,
+                           timeout=900)
+        return dict(ok=p.returncode == 0, modules=sorted(set(mods)), tail=clean_out(p.stdout + p.stderr)[-300:])
+    except Exception as ex:
+        return dict(ok=None, error=repr(ex)[:200])
+
+
 def audit(prop):
     """`#print axioms` for every theorem registered for `prop`; returns (n_obligations, n_ok, details)"""
     reg = load_registry()[prop]
